@@ -39,7 +39,10 @@ ASSUMPTIONS = [
 ]
 RULE = ("dims: single dimensions, every kind x prior x transform, points on / next to the bounds (math.nextafter), powers of the base, "
         "negative ranges, magnitudes 1e-300..1e300; spaces: 1-8 mixed dimensions, 1-50 rows; problem: dimensions as created by "
-        "deephyper.hpo HpProblem -> convert_to_skopt_space (RF / GP flavour, optionally normalize_dimensions). "
+        "deephyper.hpo HpProblem -> convert_to_skopt_space (RF / GP flavour, optionally normalize_dimensions); respace: ONE Space "
+        "object taken through a sequence of transformer switches (Space.set_transformer with a string / a list, "
+        "Dimension.set_transformer, normalize_dimensions, set_transformer_by_type, reassignment of space.dimensions), "
+        "checked against the model of the CURRENT configuration before the first and after every switch. "
         "non-trivial = some dimension does arithmetic (log / normalize / label / onehot) or a point lies on a bound")
 
 F_TRANSFORM, F_PWARGS, F_INVERSE, F_INVERSE_TODAY, F_OK, F_TBOUNDS, F_TDIMS, F_INSPACE = 901, 902, 903, 904, 905, 906, 907, 908
@@ -675,6 +678,137 @@ def shrink_problem(case):
             name = decls[j][0]
             yield dict(case, decls=decls[:j] + decls[j + 1:], X=[{k: v for k, v in r.items() if k != name} for r in X])
 
+# ----------------------------------------------------------------------------------------------- respace: one Space object, many configurations
+def allowed_tr(d):
+    if d["kind"] != "cat":
+        return ["identity", "normalize"]
+    return ["label", "onehot", "normalize"] + (["identity"] if d["ck"] in ("int", "float") else [])
+
+
+def apply_step(space, dims, step):
+    """performs one switch on the live Space object; returns the description of the configuration it must now have"""
+    from deephyper.skopt.space import Categorical, Integer, Real
+    from deephyper.skopt.utils import normalize_dimensions
+
+    op = step[0]
+    if op == "space_all":          # Space.set_transformer("normalize")
+        space.set_transformer(step[1])
+        return [dict(d, tr=step[1]) for d in dims]
+    if op == "space_list":         # Space.set_transformer([...])
+        space.set_transformer(list(step[1]))
+        return [dict(d, tr=t) for d, t in zip(dims, step[1])]
+    if op == "dim":                # Dimension.set_transformer - the route normalize_dimensions takes
+        space.dimensions[step[1]].set_transformer(step[2])
+        return [dict(d, tr=step[2]) if j == step[1] else d for j, d in enumerate(dims)]
+    if op == "normalize_dimensions":   # what Optimizer.__init__ does for GP surrogates
+        space.dimensions = normalize_dimensions(space.dimensions)
+        return [dict(d, tr="normalize") for d in dims]
+    if op == "by_type":            # Space.set_transformer_by_type
+        cls = {"real": Real, "int": Integer, "cat": Categorical}[step[1]]
+        space.set_transformer_by_type(step[2], cls)
+        return [dict(d, tr=step[2]) if d["kind"] == step[1] else d for d in dims]
+    if op == "reassign":           # space.dimensions = [new Dimension objects]
+        new = [dict(d, tr=t) for d, t in zip(dims, step[1])]
+        space.dimensions = [make_dim(d) for d in new]
+        return new
+    raise ValueError(op)
+
+
+def check_respace(case):
+    from deephyper.skopt.space import Space
+
+    dims = [dict(d) for d in case["dims"]]
+    X = case["X"]
+    space = Space([make_dim(d) for d in dims])
+    ops = []
+    out = None
+    for k in range(len(case["steps"]) + 1):
+        if k > 0:
+            step = case["steps"][k - 1]
+            dims = apply_step(space, dims, step)
+            ops.append(step[0])
+            if list(space.get_transformer()) != [d["tr"] for d in dims]:
+                r = res_base(dims, X)
+                return dict(r, ok=False, kind="corr", clause="get_transformer", sig={"after": step[0]}, detail=dict(step=k, impl=list(space.get_transformer())))
+        # a different, non-empty selection of the rows at every step (1 row, all rows, a window)
+        lo, n = case["rows"][k % len(case["rows"])]
+        Xk = X[lo:lo + n] or X[:1]
+        r = run_space(dims, Xk, space=space, dim_level=True)
+        if not r["ok"]:
+            r["sig"] = dict(r.get("sig") or {}, after=(ops[-1] if ops else "fresh"), reused=k > 0)
+            r["detail"] = dict(step=k, ops=ops, config=[d["tr"] for d in dims], inner=r.get("detail"))
+            return r
+        out = out or r
+    out = dict(out)
+    out["desc"] = sorted(set(out["desc"])) + sorted(set("op=" + o for o in ops)) + ["steps=%d" % len(case["steps"])]
+    out["nontrivial"] = len(ops) > 0
+    return out
+
+
+def gen_step(rng, dims):
+    c = rng.random()
+    if c < 0.3:
+        j = rng.randrange(len(dims))
+        return ["dim", j, rng.choice(allowed_tr(dims[j]))]
+    if c < 0.42:
+        return ["normalize_dimensions"]
+    if c < 0.55:
+        common = [t for t in ("normalize", "identity") if all(t in allowed_tr(d) for d in dims)]
+        return ["space_all", rng.choice(common)]
+    if c < 0.7:
+        return ["space_list", [rng.choice(allowed_tr(d)) for d in dims]]
+    if c < 0.88:
+        kind = rng.choice(sorted(set(d["kind"] for d in dims)))
+        common = [t for t in ("normalize", "identity", "label", "onehot") if all(t in allowed_tr(d) for d in dims if d["kind"] == kind)]
+        return ["by_type", kind, rng.choice(common)]
+    return ["reassign", [rng.choice(allowed_tr(d)) for d in dims]]
+
+
+def gen_respace_stream(count):
+    def gen(rng, tier):
+        k = count if tier != "search" else count * 3
+        for i in range(k):
+            nd = rng.randint(1, 6) if tier != "search" else rng.randint(1, 3)
+            dims = [gen_dim(rng) for _ in range(nd)]
+            if i % 3 == 0:  # a categorical whose width changes with the transform, somewhere in the space
+                c = gen_cat(rng, rng.choice(["onehot", "onehot", "label", "normalize"]), rng.choice(["str", "int", "float"]))
+                while len(c["cats"]) < 3:
+                    c = gen_cat(rng, c["tr"], c["ck"])
+                dims[rng.randrange(nd)] = c
+            n = rng.choice([1, 2, 3, 5, 10])
+            X = gen_rows(rng, dims, n)
+            steps = [gen_step(rng, dims) for _ in range(rng.randint(1, 5))]
+            rows = [[rng.randrange(n), rng.randint(1, n)] for _ in range(3)] + [[0, n]]
+            rng.shuffle(rows)
+            yield dict(dims=dims, X=X, steps=steps, rows=rows)
+    return gen
+
+
+def shrink_respace(case):
+    dims, X, steps, rows = case["dims"], case["X"], case["steps"], case["rows"]
+    for i in range(len(steps)):
+        yield dict(case, steps=steps[:i] + steps[i + 1:])
+    if rows != [[0, len(X)]]:
+        yield dict(case, rows=[[0, len(X)]])
+    for i in range(len(X)):
+        if len(X) > 1:
+            yield dict(case, X=X[:i] + X[i + 1:], rows=[[0, len(X) - 1]])
+    for j in range(len(dims)):
+        if len(dims) > 1:
+            st = []
+            for s_ in steps:
+                if s_[0] == "dim":
+                    if s_[1] == j:
+                        continue
+                    st.append(["dim", s_[1] - (1 if s_[1] > j else 0), s_[2]])
+                elif s_[0] in ("space_list", "reassign"):
+                    st.append([s_[0], s_[1][:j] + s_[1][j + 1:]])
+                elif s_[0] == "by_type" and not any(d["kind"] == s_[1] for k_, d in enumerate(dims) if k_ != j):
+                    continue
+                else:
+                    st.append(s_)
+            yield dict(dims=dims[:j] + dims[j + 1:], X=[r[:j] + r[j + 1:] for r in X], steps=st, rows=rows)
+
 
 def streams(tier):
     th = tier == "thorough"
@@ -682,4 +816,5 @@ def streams(tier):
         Stream("dims", gen_dims_stream(60000 if th else 1800), check_space, shrink_space, timeout=60),
         Stream("spaces", gen_spaces_stream(36000 if th else 1000), check_space, shrink_space, timeout=60),
         Stream("problem", gen_problem_stream(4000 if th else 200), check_problem, shrink_problem, timeout=120),
+        Stream("respace", gen_respace_stream(8000 if th else 400), check_respace, shrink_respace, timeout=120),
     ]
